@@ -114,7 +114,9 @@ pub fn fam_for(tier: Tier, prop: &str) -> Vec<CaseSpec> {
         }
         // necklace: two bubbles (edge-disjoint cycles) coupled through a third cycle: exact zeros in L with Cholesky fill-in
         let necklace: Vec<(u8, u8)> = vec![(0, 1), (0, 1), (1, 2), (1, 2), (2, 0)];
-        for (topo, exts) in [(crate::scope::kite(), vec![vec![0u8, 3], vec![0, 1, 3]]), (crate::scope::banana(3), vec![vec![0u8, 1]]), (necklace, vec![vec![0u8, 1], vec![0, 1, 2]]), (crate::scope::mercedes(), vec![vec![0u8, 1, 2]])] {
+        // sunrise and bubble joined in a cut vertex: 3 loops, L and L^-1 block diagonal in a block-respecting basis
+        let cutv: Vec<(u8, u8)> = vec![(0, 1), (0, 1), (0, 1), (1, 2), (1, 2)];
+        for (topo, exts) in [(crate::scope::kite(), vec![vec![0u8, 3], vec![0, 1, 3]]), (crate::scope::banana(3), vec![vec![0u8, 1]]), (necklace, vec![vec![0u8, 1], vec![0, 1, 2]]), (crate::scope::mercedes(), vec![vec![0u8, 1, 2]]), (cutv, vec![vec![0u8, 2], vec![0, 1, 2]])] {
             let ne = topo.len();
             for massive in [vec![false; ne], (0..ne).map(|e| e == 1).collect::<Vec<bool>>()] {
                 for ext in &exts {
@@ -173,6 +175,13 @@ pub fn explore(plan: &Plan, f: &PointFn) -> Acc {
         };
         acc.hist("construction_path", base.via);
         let mut orbit_routed: Vec<Routed> = vec![];
+        if plan.basis_orbit {
+            // a loop-momentum offset: every edge that carries a loop momentum - self-loops included - gets a non-zero shift
+            let a: Vec<Vec<Q>> = (0..case.nl).map(|l| (0..case.g.dim).map(|c| if c % 2 == 0 { qr(1 + l as i64, 2) } else { qi(-3) }).collect()).collect();
+            if let Ok(r) = route_via(&case, &case.base_kin().offset(&a)) {
+                orbit_routed.push(r);
+            }
+        }
         if plan.basis_orbit && case.nl >= plan.basis_orbit_min_loops.max(2) {
             let bk = case.base_kin();
             let mut ks: Vec<oracle::kin::Kin> = oracle::kin::elementary_unimodular(case.nl).iter().map(|m| bk.change_basis(m)).collect();
@@ -1358,7 +1367,7 @@ pub fn run_simple(ctx: &Ctx) -> i32 {
         },
         tropical_routing: matches!(prop, "C09" | "C10" | "C11"),
         points_per_case: match prop {
-            "C10" => tier.pick(2000, 1200),
+            "C10" => tier.pick(1000, 1000),
             "C09" => tier.pick(900, 800),
             "C11" => tier.pick(1500, 800),
             _ => tier.pick(1500, 800),
